@@ -74,7 +74,14 @@ def parseFmt (s : String) : Option FmtArg :=
   match s.splitOn "/" with
   | ["k", cls, lang, es, vecp, cdata, eab, indent] =>
     let a := parseArgs es vecp cdata eab indent
-    if cls == "F" then some (.obj (mkFormatter (parseLang lang) a))
+    -- `F@<names>` etc.: a user subclass whose HTML_DEFAULTS['cdata_containing_tags'] is <names> (E = empty)
+    if cls.contains '@' then
+      match cls.splitOn "@" with
+      | [base, hd] =>
+        let l := if base == "F" then parseLang lang else if base == "H" then some .html else some .xml
+        some (.obj (mkFormatterCls (parseNames hd) l a))
+      | _ => none
+    else if cls == "F" then some (.obj (mkFormatter (parseLang lang) a))
     else if cls == "H" then some (.obj (mkHTMLFormatter a))
     else if cls == "X" then some (.obj (mkXMLFormatter a))
     else if cls == "HO" then some (.obj (mkHTMLFormatterOld a))
